@@ -1621,6 +1621,10 @@ func (p *Parser) parseCast() ast.Expression {
 // wrapWithAlias wraps an expression with an alias, handling different expression types appropriately
 // If the expression already has an alias (e.g., AliasedExpr), the new alias replaces/overrides it
 func (p *Parser) wrapWithAlias(expr ast.Expression, alias string) ast.Expression {
+	// Nothing to alias if the expression failed to parse
+	if expr == nil {
+		return nil
+	}
 	switch e := expr.(type) {
 	case *ast.Identifier:
 		e.Alias = alias
